@@ -17,6 +17,7 @@ dialect neovm
 
 witness Update [C03,C16] : W(cmtaddr())
 // audit results are accepted only with the witness of the key named in the result (membership in the Inner Ring: C20)
+// (the sweep can only say "some witness"; that it is the witness of the key cut out of the result is Put's contract in module store)
 witness Put [C03,C20]    : anyWitness
 safe Get [C03]
 safe List [C03]
@@ -28,7 +29,7 @@ safe Version [C03]
 
 /*@
 module store
-props C20
+props C03 C20
 use common core
 dialect neovm
 
@@ -42,7 +43,7 @@ func (a AuditHeader) ID() (r)
   ensures [C20] r == aid(a.Epoch, a.CID, a.From) && !isnil(r)
 
 func Put(rawAuditResult)
-  ensures [C20] exists e Int, c Bytes, f Bytes {aid(e, c, f)} :: W(f) && (exists i Int :: 0 <= i && i < len(designated()) && designated()[i] == f)
+  ensures [C03,C20] exists e Int, c Bytes, f Bytes {aid(e, c, f)} :: W(f) && (exists i Int :: 0 <= i && i < len(designated()) && designated()[i] == f)
         && store.has(aid(e, c, f)) && store.get(aid(e, c, f)) == rawAuditResult
         && (forall k Bytes {store.opt(k)} :: k != aid(e, c, f) ==> store.opt(k) == old(store).opt(k))
   ensures [C20] notifs == old(notifs)
